@@ -135,6 +135,9 @@ fn sig_from_der(req: &Value) -> R {
 
 fn sig_from_compact(req: &Value) -> R {
     let b = hx(req, "hex")?;
+    if bo(req, "via_impl") {
+        return Ok(sig_json(&Signature::from_compact_impl(&b).map_err(lib)?));
+    }
     Ok(sig_json(&Signature::from_compact_bytes(&b).map_err(lib)?))
 }
 
@@ -160,8 +163,11 @@ fn sig_to(req: &Value) -> R {
 
 fn recover(req: &Value) -> R {
     let sig = Signature::from_compact_bytes(&hx(req, "compact")?).map_err(|e| drv(format!("compact: {}", e)))?;
+    let inner = bo(req, "inner");
     let pk = match hx_opt(req, "digest")? {
+        Some(d) if inner => sig.get_public_key_from_digest(&d).map_err(lib)?,
         Some(d) => sig.recover_public_key_from_digest(&d).map_err(lib)?,
+        None if inner => sig.get_public_key(&hx(req, "msg")?, hash_of(req)?).map_err(lib)?,
         None => sig.recover_public_key(&hx(req, "msg")?, hash_of(req)?).map_err(lib)?,
     };
     Ok(json!({"pub": h(&pk.to_bytes().map_err(lib)?), "compressed": pk.is_compressed()}))
@@ -204,6 +210,16 @@ fn ecies_enc(req: &Value) -> R {
             Err(_) => mk_key(req, "key", "compressed")?.to_public_key().map_err(lib)?,
         };
         o["direct_decrypt"] = sub(|| ECIES::decrypt(&ct, &rk, &sender_pub), |b| h(&b));
+        // immediately afterwards, on the same thread: the NEGATED sender key (same x coordinate, other parity), then the genuine key again
+        if let Ok(sb) = sender_pub.to_compressed().and_then(|p| p.to_bytes()) {
+            let mut nb = sb.clone();
+            nb[0] ^= 1;
+            if let Ok(neg) = PublicKey::from_bytes(&nb) {
+                o["direct_decrypt_negated_sender"] = sub(|| ECIES::decrypt(&ct, &rk, &neg), |b| h(&b));
+                o["direct_decrypt_negated_sender_via_key"] = sub(|| rk.decrypt_message(&ct, &neg), |b| h(&b));
+                o["direct_decrypt_again"] = sub(|| ECIES::decrypt(&ct, &rk, &sender_pub), |b| h(&b));
+            }
+        }
         // the same in-memory object with a wrong recipient key / a wrong sender key (must not yield plaintext)
         if let Some(wk) = hx_opt(req, "wrong_key")? {
             let wk = PrivateKey::from_bytes(&wk).map_err(|e| drv(format!("wrong_key: {}", e)))?;
@@ -323,7 +339,10 @@ fn pbkdf2(req: &Value) -> R {
         f => return Err(drv(format!("fn {}", f))),
     };
     // salt absent => the library draws a random salt and reports it
-    let k = KDF::pbkdf2(&hx(req, "password")?, hx_opt(req, "salt")?, algo, un(req, "rounds")? as u32, un(req, "len")? as usize);
+    let k = match (bo(req, "via_impl"), hx_opt(req, "salt")?) {
+        (true, Some(salt)) => KDF::pbkdf2_impl(&hx(req, "password")?, &salt, algo, un(req, "rounds")? as u32, un(req, "len")? as usize),
+        (_, salt) => KDF::pbkdf2(&hx(req, "password")?, salt, algo, un(req, "rounds")? as u32, un(req, "len")? as usize),
+    };
     Ok(json!({"hash": h(&k.get_hash().to_bytes()), "salt": h(&k.get_salt())}))
 }
 
@@ -372,6 +391,14 @@ fn digest_chunks(req: &Value) -> R {
         "sha256d" => run::<bsv::hash::sha256d_digest::Sha256d>(&chunks, rev),
         "sha256r" => run::<Sha256r>(&chunks, rev),
         "hash160" => run::<bsv::hash::hash160_digest::Hash160>(&chunks, rev),
+        // the explicit constructor Hash160::new(reverse) instead of default() + reverse()
+        "hash160_new" => {
+            let mut d = bsv::hash::hash160_digest::Hash160::new(rev);
+            for c in &chunks {
+                d.update(c);
+            }
+            d.finalize_fixed().to_vec()
+        }
         // the adapter the signers actually use
         "signing_sha256" | "signing_sha256d" => {
             let all: Vec<u8> = chunks.concat();
@@ -401,7 +428,10 @@ fn aes(req: &Value) -> R {
         m => return Err(drv(format!("mode {}", m))),
     };
     let (k, iv, m) = (hx(req, "key")?, hx(req, "iv")?, hx(req, "msg")?);
+    let vi = bo(req, "via_impl");
     let out = match st(req, "dir")? {
+        "enc" if vi => AES::encrypt_impl(&k, &iv, &m, algo).map_err(lib)?,
+        "dec" if vi => AES::decrypt_impl(&k, &iv, &m, algo).map_err(lib)?,
         "enc" => AES::encrypt(&k, &iv, &m, algo).map_err(lib)?,
         "dec" => AES::decrypt(&k, &iv, &m, algo).map_err(lib)?,
         d => return Err(drv(format!("dir {}", d))),
